@@ -712,7 +712,7 @@ def run(tier, seed, replay=None):
 
     if tier == 'thorough' and getattr(ck, 'props_ok', False):
         rc, out, err, dt = sh(['coqchk', '-silent', '-o', '-Q', '.', 'PV', 'PV.Props.C18'], cwd=COQ, timeout=2400)
-        ck.oblige('coqchk:Props.C18', 'proof', rc == 0 and 'Axioms: <none>' in out, (out + err)[-600:] if rc or 'Axioms: <none>' not in out
+        ck.oblige('coqchk:Props.C18', 'proof', rc == 0 and 'Axioms: <none>' in (out + err), (out + err)[-600:] if rc or 'Axioms: <none>' not in (out + err)
                   else f'coqchk -o: no axioms, {dt:.0f}s')
 
     def evaluate(cases):
